@@ -337,6 +337,22 @@ def build_cases(rng, tier):
                       # (-CF reads yy_transition past its end on some bytes, in-code and loaded alike: that is C13's finding, not a loader defect)
                       'asan': i % 3 == 0 and not any('F' in o for o in REPRS[i % len(REPRS)]), 'tier': tier,
                       'text': '', 'backend': 'nr'})
+    # the width boundaries themselves: 126 rules make YY_END_OF_BUFFER - the largest entry of yy_accept - exactly 128, the first value
+    # that does not fit a signed byte (125 rules: 127 fits; 127 rules: 129)
+    for i, nr_ in enumerate([126, 125, 127, 126] if tier == "quick" else [126, 125, 127, 126, 126, 254, 255, 256]):
+        r = rng.fork("edge%d" % i)
+        words = []
+        k = 0
+        while len(words) < nr_ - 1:
+            w = [97 + (k // 676) % 26, 97 + (k // 26) % 26, 97 + k % 26, 48 + k % 10]
+            words.append(w)
+            k += 7
+        prog = {'csize': 256, 'caseins': False, 'scs': [], 'rules':
+                [{'head': ('str', w), 'bol': False, 'scs': None, 'trail': None} for w in words] +
+                [{'head': ('plus', ('cls', ('set', False, [('rg', 97, 122)]))), 'bol': False, 'scs': None, 'trail': None}]}
+        cases.append({'id': "e%d" % i, 'kind': 'rt', 'prog': prog, 'seed': r.s, 'flex_opts': [[], ["-Cf"], ["-Ce"], ["-CF"]][i % 4] + ["-8"], 'extra_options': [],
+                      'inputs': rulesets.gen_inputs(prog, r.fork("in"), count=2, maxlen=60), 'asan': i % 2 == 0, 'tier': tier,
+                      'text': '', 'backend': 'nr'})
     # tables whose entries need 32 bits in the file (offsets in yy_base / yy_def beyond 32767): wide rows that do not compress
     from props import c02
     for i in range(1 if tier == "quick" else 2):
